@@ -36,7 +36,7 @@ XSI = "http://www.w3.org/2001/XMLSchema-instance"
 
 M1 = '''
 from dataclasses import dataclass, field
-from typing import Optional, Dict, Callable
+from typing import Optional, Dict, Callable, Union
 
 
 @dataclass
@@ -98,6 +98,21 @@ class W2:
         namespace = "urn:w"
 
     ext: list[object] = field(default_factory=list, metadata={"type": "Wildcard", "namespace": "##other"})
+
+
+@dataclass
+class UCat:
+    name: Optional[str] = field(default=None, metadata={"type": "Element"})
+
+
+@dataclass
+class UDog:
+    bark: Optional[int] = field(default=None, metadata={"type": "Element"})
+
+
+@dataclass
+class UHolder:
+    u: Optional[Union[UCat, UDog]] = field(default=None, metadata={"type": "Element"})
 
 
 @dataclass
@@ -205,6 +220,9 @@ def api_ops():
         "parseW2same": lambda sh: sh.xpl.from_string(W_DOC.format(c="W2", ns="urn:w", l="item"), m.W2),
         "parseW2other": lambda sh: sh.xpl.from_string(W_DOC.format(c="W2", ns="urn:allowed", l="item"), m.W2),
         "parseMalformed": lambda sh: sh.xp.from_string("<A xmlns='urn:a'><child>", m.A),
+        # an element typed with a union of models: the candidates are tried with a STRICTER copy of the parser's
+        # configuration - nothing of that may stay behind on the shared parser (parseBadValue is the witness)
+        "parseUnion": lambda sh: sh.xp.from_string("<UHolder><u><bark>3</bark></u></UHolder>", m.UHolder),
     }
 
 
